@@ -100,6 +100,8 @@ pub struct EventSender<'a> {
     token: usize,
     // the select coroutine can use it to pass extra data to the caller
     extra: AtomicUsize,
+    // set when `send` really pushed its event
+    sent: AtomicBool,
     // the poller's wake up slot, shared with the cqueue
     to_wake: Arc<AtomicOption<Arc<Blocker>>>,
     // the mpsc event queue to collect the events
@@ -129,6 +131,7 @@ impl EventSource for EventSender<'_> {
         // end and leave the scope: `self` lives in the select coroutine and
         // the cqueue in the poller, neither may be used after the push
         let to_wake = self.to_wake.clone();
+        self.sent.store(true, Ordering::Relaxed);
         self.cqueue.ev_queue.push(Event {
             id: self.id,
             token: self.token,
@@ -141,8 +144,13 @@ impl EventSource for EventSender<'_> {
         }
     }
 
-    fn yield_back(&self, _cancel: &'static Cancel) {
-        // ignore the cancel to let the bottom half get processed
+    fn yield_back(&self, cancel: &'static Cancel) {
+        // ignore the cancel to let the bottom half get processed, but only
+        // when the event was sent: a cancel that `yield_with` detected before
+        // it suspended the coroutine must end it, nobody polled an event
+        if !self.sent.swap(false, Ordering::Relaxed) {
+            cancel.check_cancel();
+        }
     }
 }
 
@@ -191,6 +199,7 @@ impl Cqueue {
             id: self.total.load(Ordering::Relaxed),
             token,
             extra: 0.into(),
+            sent: AtomicBool::new(false),
             to_wake: self.to_wake.clone(),
             cqueue: self,
         };
